@@ -425,6 +425,15 @@ def extract_generic(repo: str) -> list[Op]:
         if not caps:
             raise TranslateError(f"utils.{name}: no shell command found")
         ops.append(Op(name, f"streamflow/core/utils.py:{name}", caps))
+    # the rename test of get_remote_to_remote_write_command must compare the two basenames exactly
+    fn = parse_function(ut, "get_remote_to_remote_write_command")
+    renames = [n for n in ast.walk(fn) if isinstance(n, ast.If) and "basename" in ast.unparse(n.test)]
+    if len(renames) != 1 or ast.unparse(renames[0].test).replace(" ", "") != "posixpath.basename(src)!=posixpath.basename(dst)":
+        raise TranslateError("get_remote_to_remote_write_command: the rename test is not `posixpath.basename(src) != posixpath.basename(dst)`: "
+                             + "; ".join(ast.unparse(n.test) for n in renames))
+    dirtests = [ast.unparse(n.test) for n in ast.walk(fn) if isinstance(n, ast.If) and "status" in ast.unparse(n.test)]
+    if sorted(set(dirtests)) != ["status == 0", "status > 1"]:
+        raise TranslateError(f"get_remote_to_remote_write_command: unexpected status tests {sorted(set(dirtests))}")
     bp = os.path.join(repo, "streamflow/deployment/connector/base.py")
     fn = parse_function(bp, "copy_same_connector")
     caps = _dedup(Exec(fn).run())
